@@ -136,7 +136,8 @@ pub trait TypeOps {
     fn ser_schema(&self, i: usize) -> Out<SchemaOut>;
     /// `store` value i to a file.
     fn store(&self, i: usize, path: &str) -> Out<()>;
-    /// Load with loader 0 load_full / 1 load_mem / 2 load_mmap / 3 mmap, then apply the
+    /// Load with loader 0 load_full / 1 load_mem / 2 load_mmap / 3 mmap / 4 `MemCase::encase`
+    /// of an ε-copy from memory, then apply the
     /// history `steps` (0 move, 1 box/unbox, 2 swap with a second load, 3 thread round trip,
     /// 4 Arc share with a reader thread, 5 channel round trip), observing after every step
     /// (`[255]`: load and drop without observing; `[254]`: observe spans and region but not the
@@ -323,8 +324,16 @@ where
         if loader == 0 {
             return out3(guarded(|| T::load_full(path).map(|x| vec![LoadObs { val: x.to_val(), spans: vec![], region: (0, 0, 0), region_hash: 0, region_bytes: vec![] }]).map_err(|e| anyhow_kind(&e))));
         }
+        // loader 4: no backend at all, `MemCase::encase` of a structure ε-copied from memory that
+        // the harness keeps alive (and aligned) for the whole history
+        let mut arena = Arena::new(if loader == 4 { std::fs::metadata(path).map(|m| m.len() as usize).unwrap_or(0) + 4096 } else { 64 });
+        let kept: &'static [u8] = if loader == 4 {
+            let file = match std::fs::read(path) { Ok(f) => f, Err(e) => return Out::Err(format!("io:{:?}", e.kind())) };
+            // SAFETY: `arena` is dropped at the end of this function, after every case built on it
+            unsafe { core::mem::transmute::<&[u8], &'static [u8]>(arena.place(0, &file)) }
+        } else { &[] };
         let load = move || -> anyhow::Result<MemCase<DeserType<'static, T>>> {
-            match loader { 1 => T::load_mem(path), 2 => T::load_mmap(path, fl), _ => T::mmap(path, fl) }
+            match loader { 1 => T::load_mem(path), 2 => T::load_mmap(path, fl), 3 => T::mmap(path, fl), _ => Ok(MemCase::encase(T::deserialize_eps(kept)?)) }
         };
         out3(guarded(|| -> Result<Vec<LoadObs>, String> {
             let mut c = load().map_err(|e| anyhow_kind(&e))?;
